@@ -7,7 +7,7 @@
 From Coq Require Import List Arith Bool.
 Import ListNotations.
 From LCC Require Import Base.Util Model.Proj Model.Sched Model.Fixture Model.TaskSem Model.TaskSemEq
-     Proofs.ProtocolP Proofs.SchedP.
+     Proofs.ProtocolP Proofs.SchedP Model.Graph Proofs.GraphP Proofs.ShapeP.
 
 (* For each executed test a start and an end enclosing properly opened and closed steps, every log inside the step open for
    the emitting thread; a single event for a skipped or disabled test; never a step start without its end when the thread
@@ -35,6 +35,26 @@ Theorem C07_suite_brackets : forall g n sof t e, dep_path g t e ->
   occurs (is_take e) ms1 /\ occurs (is_finish e) ms1 /\ occurs (is_main e) ms1.
 Proof. exact take_after_transitive_dependencies. Qed.
 Print Assumptions C07_suite_brackets.
+
+(* ... and that is so for EVERY project (every suite tree, fixture schedule, force_disabled, depends_on edges): each nested
+   suite s' has its block of tasks [T] in the graph (Begin first, End last; in between its setup, tests, teardown and the
+   blocks of its sub-suites, recursively: Graph.suite_tasks); for every thread count, results and interleaving no task of
+   the block is taken before the suite's Begin task (which emits suite_start) has finished, and the End task (which emits
+   suite_end) is not taken before every other task of the block has finished. *)
+Theorem C07_suite_brackets_every_project : forall si force suites g s',
+  build_tasks si force suites = Some g -> In s' (all_subsuites suites) ->
+  exists pre post ss pb prefix inh,
+    let T := suite_tasks si force ss pb prefix inh (length pre) s' in
+    let b := length pre in let e := length pre + length T - 1 in
+    build_tasks_structural si force suites = pre ++ T ++ post /\
+    t_kind (get_task g b) = KSuiteBegin /\ t_kind (get_task g e) = KSuiteEnd /\
+    forall n sof ms1 md ms2 st, 1 <= n ->
+      (forall i, b < i <= e -> run g n sof (init g n) (ms1 ++ MTake i md :: ms2) = Some st ->
+         occurs (is_take b) ms1 /\ occurs (is_finish b) ms1 /\ occurs (is_main b) ms1) /\
+      (forall i, b <= i < e -> run g n sof (init g n) (ms1 ++ MTake e md :: ms2) = Some st ->
+         occurs (is_take i) ms1 /\ occurs (is_finish i) ms1 /\ occurs (is_main i) ms1).
+Proof. exact suite_brackets_run. Qed.
+Print Assumptions C07_suite_brackets_every_project.
 
 (* With one worker thread events of different tests and phases never interleave: while a task is running no other task can
    be taken. *)
